@@ -228,6 +228,8 @@ def build_fn(unit, file_spec, item_spec, opts, sections, log, probes=False):
         text = re.sub(r"\bfn\s+\w+", "fn " + newname, text, count=1)
     if is_fn and "noisolation" in opts:
         lead += "#[verifier::loop_isolation(false)]\n"
+    if is_fn and "nodecreases" in opts:
+        lead += "#[verifier::exec_allows_no_decreases_clause]\n"
     if "novis" not in opts:
         if is_fn or re.match(r"\s*(struct|enum|const|static|type)\b", text):
             text = "pub " + text.lstrip()
